@@ -478,7 +478,16 @@ def r18_12(ctx):
             ctx.undecided('R18.12', f.qual, 'remaining axes', f.node, 'not recognised')
             continue
         t = src(f.node).replace(' ', '')
-        normalised = '%self.ndim' in t or 'normalize_axis' in t or '+self.ndim' in t
+        normalised = 'normalize_axis' in t
+        for a in ast.walk(f.node):
+            # any rebinding of `axis` (or of the name the difference subtracts) that computes with the number of dimensions
+            if isinstance(a, ast.Assign) and any(isinstance(x, ast.BinOp) and isinstance(x.op, (ast.Mod, ast.Add)) and
+                                                 any(k in src(x) for k in ('ndim', 'len(')) for x in ast.walk(a.value)):
+                normalised = True
+        sub_names = {x.id for x in ast.walk(diff[0].right) if isinstance(x, ast.Name)}
+        if not normalised and sub_names != {'set', 'axis'}:
+            ctx.undecided('R18.12', f.qual, src(diff[0]), diff[0], 'the subtracted axes are not the parameter itself')
+            continue
         ctx.decide('R18.12', f.qual, src(diff[0]), True if normalised else False, diff[0],
                    'axes are normalised before the set difference' if normalised else
                    'a negative axis (squeeze(-1), valid for numpy.squeeze) is not an element of range(ndim): nothing is removed, the result '
